@@ -234,7 +234,9 @@ def exposure_bound(tr, market, phase):
                 tr.violate("C01", "selection-loss-exceeds-limit", {"replaced": replaced, "phase": "settlement" if phase == "closed" else "update"}, views=views, worst=worst, limit=st.max_selection_exposure, tick=tr.tick, strategy=st.name)
             if phase == "closed":
                 loss = -sum(o.profit for o in os_)
-                slack = 0.02 + sum(0.005 * max(0.0, (o.average_price_matched or 1.0) - 1.0) for o in os_ if o.order_type.ORDER_TYPE.name != "LIMIT" and o.side == "LAY")
+                # settlement works on the 2-dp average matched price (error <= 0.005 x matched per order, as in C08) and an SP lay is
+                # matched at round(liability / (sp - 1), 2)
+                slack = 0.02 + sum(0.005 * (o.size_matched or 0.0) for o in os_) + sum(0.005 * max(0.0, (o.average_price_matched or 1.0) - 1.0) for o in os_ if o.order_type.ORDER_TYPE.name != "LIMIT" and o.side == "LAY")
                 tr.counters["rule_realised"] += 1
                 if loss > st.max_selection_exposure + slack:
                     replaced = any(getattr(o, "_vf_replacement", False) for o in os_)
